@@ -7,6 +7,7 @@
      SPEC  — implementation and specification (spec/Sem.v + spec/Proj.v) disagree;
              class=<known-finding class> when one of the recorded deviations explains it
      PROP  — a relation a property states directly on the implementation's outputs fails
+     THM   — an instance of a proved refinement theorem fails on the extracted terms (trusted base broken)
      IMPURE, SKIP, STAT, SUMMARY
 
    usage: sjdriver CASES.sexp *)
@@ -190,6 +191,57 @@ let spec_leg (c : case) =
               end
             end) r.entries
       end) c.runs
+
+(* ---------- THM: instances of the refinement theorems ----------
+   proofs/RefineClosed.v: query/first/match/exists/eom_is_trace.  Where their decidable
+   hypotheses hold of a generated case (no cancellation, non-empty root chain, no_kv, exists_ok,
+   ne_ops and, for the existence entry points in lax mode, unary_tail_free) the conclusion must
+   hold of the extracted terms: the model's answer equals the projection of the specification's
+   trace taken with quirks_code.  A THM line therefore means that the extracted code, the oracle
+   instance or this driver does not satisfy a proved theorem - a broken trusted base, reported
+   like a broken correspondence.  The counters say how much of the generated input space the
+   theorems' hypotheses cover. *)
+let thm_leg (c : case) =
+  let lib = lib_of c in
+  let root = c.path.p_root in
+  let h_ne = root <> [] and h_kv = no_kv root and h_ex = exists_ok root and h_no = ne_ops root in
+  let h_ut = unary_tail_free root in
+  bump "thm_cases";
+  if not h_kv then bump "thm_hyp_no_kv_fails";
+  if not h_ex then bump "thm_hyp_exists_ok_fails";
+  if not h_no then bump "thm_hyp_ne_ops_fails";
+  if not h_ut then bump "thm_hyp_unary_tail_free_fails";
+  if h_ne && h_kv && h_ex && h_no then begin
+    bump "thm_hyp_ok";
+    List.iter (fun r ->
+        if r.k < 0 then begin
+          let o = opts_of c r in
+          List.iter (fun (entry, _) ->
+              let applies = match entry with
+                | "exists" -> (not c.path.p_lax) || h_ut
+                | "eom" -> c.path.p_pred || (not c.path.p_lax) || h_ut
+                | _ -> true in
+              if applies then begin
+                missed := false;
+                let m = match entry with
+                  | "query" -> (match api_query lib fuel c.path c.doc o with Ret _ as x -> Some (obs_of_q x) | _ -> None)
+                  | "first" -> (match api_first lib fuel c.path c.doc o with Ret _ as x -> Some (obs_of_f x) | _ -> None)
+                  | "exists" -> (match api_exists lib fuel c.path c.doc o with Ret _ as x -> Some (obs_of_b x) | _ -> None)
+                  | "match" -> (match api_match lib fuel c.path c.doc o with Ret _ as x -> Some (obs_of_b x) | _ -> None)
+                  | _ -> (match api_eom lib fuel c.path c.doc o with Ret _ as x -> Some (obs_of_b x) | _ -> None) in
+                (match m with
+                 | None -> bump "thm_premise_not_ret"
+                 | Some m ->
+                   let s = spec_obs lib c o entry quirks_code in
+                   bump "thm_instances";
+                   if not (obs_eqb false c.kv m s) && not !missed then begin
+                     bump "thm_failures";
+                     Printf.printf "THM %s %s %s silent=%b theorem=%s_is_trace model=%s spec=%s text=%s\n"
+                       c.id c.family entry r.silent entry (string_of_obs m) (string_of_obs s) (qs c.text)
+                   end)
+              end) r.entries
+        end) c.runs
+  end
 
 (* ---------- property relations stated directly on the implementation's outputs ---------- *)
 let is_err = function ObErr _ -> true | _ -> false
@@ -735,6 +787,7 @@ let () =
               end;
               tie_leg c;
               spec_leg c;
+              thm_leg c;
               check_c05 c;
               check_c06 c;
               check_c08 c;
@@ -752,7 +805,8 @@ let () =
   List.iter (fun g -> finish_group g (List.rev (Hashtbl.find groups g))) (List.rev !group_order);
   Printf.printf "STAT distinct_nontrivial n=%d\n" (count "distinct_nontrivial");
   List.iter (fun name -> if count name > 0 then Printf.printf "STAT %s n=%d\n" name (count name))
-    ["c12_pairs"; "c12_triples"; "c13_checked"; "c11_groups"; "c09_groups"; "c10_groups"; "cancel_runs";
+    ["thm_cases"; "thm_hyp_ok"; "thm_instances"; "thm_failures"; "thm_premise_not_ret"; "thm_hyp_no_kv_fails"; "thm_hyp_exists_ok_fails";
+     "thm_hyp_ne_ops_fails"; "thm_hyp_unary_tail_free_fails"; "c12_pairs"; "c12_triples"; "c13_checked"; "c11_groups"; "c09_groups"; "c10_groups"; "cancel_runs";
      "prop_C05"; "prop_C06"; "prop_C08"; "prop_C09"; "prop_C10"; "prop_C11"; "prop_C12"; "prop_C13"; "prop_C16"; "prop_C20"];
   Printf.printf "SUMMARY cases=%d runs=%d comparisons=%d ties=%d polls=%d impure=%d skipped=%d oracle_miss=%d spec_comparisons=%d spec_mismatches=%d\n"
     (count "cases") (count "runs") (count "comparisons") (count "ties") (count "polls") (count "impure") (count "skipped")
